@@ -377,6 +377,15 @@ macro_rules! with_stack {
                 };
                 (rec.log, r)
             }
+            "replace_compact" => {
+                let mut rec = Rec::<true>::new($fail);
+                let r = {
+                    let mut h = Replace::new(Compact::new(&mut rec, $old, $new));
+                    let $d = &mut h;
+                    $body
+                };
+                (rec.log, r)
+            }
             other => panic!("bad stack {}", other),
         }
     }};
